@@ -442,7 +442,7 @@ def run_job(job, io):
                 e = pick()
                 o = pick()
                 opn = tape.choice(('flatten_up_to', 'flatten_up_to_other', 'common_suffix_other', 'is_prefix', 'compare', 'compose',
-                                   'transform_raise', 'unflatten_short', 'unflatten_long', 'unflatten', 'walk', 'traverse',
+                                   'transform_raise', 'transform_keep', 'transform_keep', 'unflatten_short', 'unflatten_long', 'unflatten', 'walk', 'traverse',
                                    'broadcast_prefix_other', 'broadcast_common_other', 'hash_eq', 'pickle', 'map_other', 'prefix_errors'), 'opn')
                 detail = opn
                 site = 'operand:' + opn
@@ -476,6 +476,32 @@ def run_job(job, io):
                                 raise ZeroDivisionError
                             return s
                         sp.transform(f, f)
+                    elif opn == 'transform_keep':
+                        # the one-level treespecs the callbacks receive belong to the caller once handed out, and what a callback
+                        # returns is an operand: keeping them (and returning the very object received) must leave them intact
+                        kept = []
+                        mode = tape.draw(3, 'tk-mode')
+
+                        def fk(s1):
+                            kept.append((s1, repr(s1), s1.num_leaves, s1.num_nodes))
+                            if mode == 0:
+                                return s1
+                            if mode == 1:
+                                return kept[0][0] if kept[0][0].num_leaves == s1.num_leaves and kept[0][0].num_children == s1.num_children else s1
+                            return optree.treespec_tuple(s1.children(), **{'none_is_leaf': sp.none_is_leaf}) if s1.kind == optree.PyTreeKind.TUPLE else s1
+                        try:
+                            sp.transform(fk, fk if tape.draw(2, 'tk-leaf') else None)
+                        finally:
+                            gc.collect()
+                            for s1, r1, nl1, nn1 in kept:
+                                try:
+                                    now = (repr(s1), s1.num_leaves, s1.num_nodes)
+                                except Exception as ex3:  # noqa: BLE001
+                                    now = 'raised %s: %s' % (type(ex3).__name__, str(ex3)[:100])
+                                if now != (r1, nl1, nn1):
+                                    viol('operand-mutated', site, 'a treespec handed to / returned by a transform callback and kept by the caller changed: %s -> %r' % (r1, now))
+                                    break
+                            kept = s1 = None
                     elif opn == 'unflatten_short':
                         sp.unflatten(leaves_arg[:-1])
                     elif opn == 'unflatten_long':
